@@ -66,40 +66,52 @@ Definition checknetloc (n : str) : res unit :=
 
 Definition is_c0_or_space (c : N) : bool := c <=? 32.
 
+(* the `if url[:2] == '//'` block: (netloc, rest of url) *)
+Definition netloc_part (e : env) (url : str) : res (str * str) :=
+  if starts [47; 47] url then
+    let '(nl, rest) := splitnetloc (drop 2 url) [] in
+    let has_o := mem 91 nl in
+    let has_c := mem 93 nl in
+    if xorb has_o has_c then Exc ValueError
+    else if has_o && has_c then
+      let '(_, _, after) := partition [91] nl in
+      let '(bh, _, _) := partition [93] after in
+      match check_bracketed_host e bh with Ok _ => Ok (nl, rest) | Exc x => Exc x end
+    else Ok (nl, rest)
+  else Ok ([], url).
+
+(* scheme detection: (scheme, rest of url) *)
+Definition scheme_part (url dscheme : str) : str * str :=
+  match cut (length url) [58] url [] with
+  | Some (pre, post) =>
+      match pre with
+      | c0 :: _ => if is_ascii_alpha c0 && forallb is_scheme_char pre
+                   then (map lower_ascii_c pre, post) else (dscheme, url)
+      | [] => (dscheme, url)
+      end
+  | None => (dscheme, url)
+  end.
+
+Definition cut_or (sep : str) (s : str) : str * str :=
+  match cut (length s) sep s [] with Some (a, b) => (a, b) | None => (s, []) end.
+
 Definition urlsplit_scheme (e : env) (url default_scheme : str) : res SplitResult :=
   let url := lstrip_by is_c0_or_space url in
   let dscheme := strip_by is_c0_or_space default_scheme in
   let unsafe c := (c =? 9) || (c =? 13) || (c =? 10) in
   let url := filter (fun c => negb (unsafe c)) url in
   let dscheme := filter (fun c => negb (unsafe c)) dscheme in
-  let '(sch, url) :=
-    match cut (length url) [58] url [] with
-    | Some (pre, post) =>
-        match pre with
-        | c0 :: _ => if is_ascii_alpha c0 && forallb is_scheme_char pre
-                     then (map lower_ascii_c pre, post) else (dscheme, url)
-        | [] => (dscheme, url)
-        end
-    | None => (dscheme, url)
-    end in
-  let* (nl, url) :=
-    (if starts [47; 47] url then
-       let '(nl, rest) := splitnetloc (drop 2 url) [] in
-       let has_o := mem 91 nl in
-       let has_c := mem 93 nl in
-       if xorb has_o has_c then Exc ValueError
-       else if has_o && has_c then
-         let '(_, _, after) := partition [91] nl in
-         let '(bh, _, _) := partition [93] after in
-         let* _ := check_bracketed_host e bh in Ok (nl, rest)
-       else Ok (nl, rest)
-     else Ok ([], url)) in
-  let '(url, frag) :=
-    match cut (length url) [35] url [] with Some (a, b) => (a, b) | None => (url, []) end in
-  let '(url, q) :=
-    match cut (length url) [63] url [] with Some (a, b) => (a, b) | None => (url, []) end in
-  let* _ := checknetloc nl in
-  Ok {| scheme := sch; netloc := nl; path := url; query := q; fragment := frag |}.
+  let sp := scheme_part url dscheme in
+  match netloc_part e (snd sp) with
+  | Exc x => Exc x
+  | Ok (nl, url) =>
+      let uf := cut_or [35] url in
+      let uq := cut_or [63] (fst uf) in
+      match checknetloc nl with
+      | Exc x => Exc x
+      | Ok _ => Ok {| scheme := fst sp; netloc := nl; path := fst uq; query := snd uq; fragment := snd uf |}
+      end
+  end.
 
 Definition urlsplit (e : env) (url : str) : res SplitResult := urlsplit_scheme e url [].
 
